@@ -75,7 +75,7 @@ def run(ctx):
     names = sorted(ff.FittingFunction._plugins)
     n_eval = 0
     samples = []
-    zs = [0.0, 0.1, 0.25, 0.5, 1.0, 2.0, 3.0, 5.0, 5.99, 6.0, 8.0, 10.0] if quick else list(np.round(np.linspace(0, 12, 49), 3)) + [5.99, 6.0]
+    zs = [0.0, 0.1, 0.25, 0.5, 1.0, 2.0, 3.0, 5.0, 5.99, 6.0, 8.0, 10.0, 12.0, 20.0] if quick else list(np.round(np.linspace(0, 12, 49), 3)) + [5.99, 6.0, 15.0, 20.0, 30.0]
     with warnings.catch_warnings():
         warnings.simplefilter("ignore")
         np.seterr(all="ignore")
